@@ -120,6 +120,13 @@ func (Section) Generate(seed uint64, tier string) engine.Plan {
 			k := r.Intn(10)
 			if w.Kind == "at" {
 				k = 0
+			} else if cur >= n && n > 0 && r.Chance(2, 3) {
+				// the cursor sits at/after the end: usually go back inside, otherwise
+				// the rest of the history is one refused write after another
+				back := r.Range(0, n-1)
+				w.Ops = append(w.Ops, SecOp{Op: "seek", Whence: 0, Rel: back})
+				cur = back
+				continue
 			}
 			rem := n - cur
 			pickLen := func() int {
